@@ -183,6 +183,34 @@ def run(ctx: core.Ctx) -> int:
         if isinstance(v, TupleV) and len(v.items) == 2 and _is_input(v.items[0], "x") and _is_input(v.items[1], "P"):
             ctx.oblige("EARLY", f"{PY}:{sq}", "accepted readings are applied", False, file=PY, func=sq,
                        construct="accept path returns inputs", msg="a non-rejected path returns the inputs unchanged", line=e["line"])
+    # ---- the arithmetic of the decision is double arithmetic: the functions it calls by bare name are math's / numpy's, as in the C++ helper
+    ctx.rule("NUM-BIND", "sqrt (and any other function the decision calls by name) is the floating-point one of math / numpy, not a symbolic one")
+    pym = it.p.modules["python"]
+    ekf_ = core.need(core.find_class(pym, "ExtendedKalmanFilter"), "python.ExtendedKalmanFilter")
+    rfn = core.need(core.find_func(ekf_, "remove_innovation"), "ExtendedKalmanFilter.remove_innovation")
+    origin = {}
+    for st in pym.body:
+        if isinstance(st, ast.ImportFrom) and st.module:
+            for a in st.names:
+                origin[a.asname or a.name] = (st.module, st.lineno)
+        elif isinstance(st, (ast.FunctionDef, ast.ClassDef)):
+            origin[st.name] = ("<local>", st.lineno)
+        elif isinstance(st, ast.Assign):
+            for t in st.targets:
+                if isinstance(t, ast.Name):
+                    origin[t.id] = ("<assigned>", st.lineno)
+    import builtins as _b
+    from .. import normast as _nmb
+    rfn_n = _nmb.inline_only(rfn, _nmb.class_resolver(pym, ekf_))
+    called = sorted({c.func.id for c in ast.walk(rfn_n) if isinstance(c, ast.Call) and isinstance(c.func, ast.Name) and not hasattr(_b, c.func.id)})
+    for nm in called:
+        mod_, ln_ = origin.get(nm, ("?", None))
+        okb = mod_.split(".")[0] in ("math", "numpy", "cmath") if nm in ("sqrt", "floor", "ceil", "fabs", "pow", "hypot", "exp", "log") else mod_ != "?"
+        sym = mod_.split(".")[0] == "sympy"
+        ctx.oblige("NUM-BIND", f"{PY}:{qual}", f"`{nm}` is {mod_}.{nm}", okb and not sym, file=PY, func=qual, construct=f"binding of {nm}",
+                   msg=f"`{nm}` in the decision is `{mod_}.{nm}` (line {ln_}): the bound k*sqrt(2m)+m is then an exact symbolic expression compared in exact "
+                       f"arithmetic, while the C++ helper and the generated filter compare doubles -- at the rounding boundary the Python filter decides differently",
+                   line=ln_)
     # ---- the decision is a pure function of (innovation, S_inv, configured threshold)
     from .. import effects
     ctx.rule("PURE", "remove_innovation writes nothing (no cached state can leak from one reading / sensor to the next)")
@@ -212,6 +240,10 @@ def run(ctx: core.Ctx) -> int:
         cppforms.c06(ctx, want_nis, want_thr, forms)
     else:
         ctx.error("C++ side of C06 not available")
+    # no module-level / class-level mutable state shared between filters: one filter's construction or update must not reach another's (shared with C01)
+    from . import c15 as _c15pp
+    ctx.rule("PY-PURE", "no module-level / class-level mutable state shared between filters (shared with C01)")
+    _c15pp.gen_pure(ctx, {"python": "py/formak/python.py", "common": "py/formak/common.py"}, rule="PY-PURE", floor=40)
     return core.finish(ctx, explanation="E3 normal forms of the three decision implementations + path/effect facts of the early return",
                        **META)
 
@@ -303,6 +335,8 @@ def config_pass(ctx: core.Ctx):
                        f"a documented setting such as innovation_filtering=None (filtering disabled), or the calibration the caller gave, is silently replaced",
                    line=bad[0][0] if bad else None)
     ctx.floor("CONFIG-PASS", n, 7, "config entry sites")
+    from . import c17 as _c17cv
+    _c17cv.config_verbatim(ctx, "CONFIG-PASS")
 
 
 def _is_input(v, name):
